@@ -140,8 +140,10 @@ def run(ctx):
             raise tlc.MachineryError("Session counterexample does not reproduce on the real model: %s" % sd.history(r.trace, len(r.trace) - 1))
         record(found, r.trace, o, observers)
     # 2. exhaustive graph, every edge that returns to top level
-    _, n1 = walk(ctx, rep, "c17a", 3 if quick else 4, 2, 600 if quick else 9000, rng, observers, found)
-    n2 = 0
+    _, n1 = walk(ctx, rep, "c17a", 3 if quick else 4, 2, 500 if quick else 9000, rng, observers, found)
+    # a group whose chains share one Decay object (4-body cascade): the same behaviours, smaller budget
+    rep4 = SessionReplayer(False, ctx.seed % 1000 + 2, model="4body")
+    _, n2 = walk(ctx, rep4, "c17b", 3, 2, 200 if quick else 3000, rng, observers, found)
     # 3. deep simulated behaviours (nesting up to 3)
     n3 = simulate(ctx, rep, "c17", 120 if quick else 1500, 14 if quick else 24, 3, observers, found)
     n_replayed = n1 + n2 + n3
@@ -155,7 +157,7 @@ def run(ctx):
         "distinct = (part) cells; failures are grouped by root-cause signature (open block kinds + failing action)"
     )
     ctx.assume("faults are injected as exceptions raised by DecayGroup.sum_amp (inner evaluation) or inside the with-body")
-    ctx.assume("one probe parameter (R_BD_mass), three chains with one resonance each, density observed on 6 probe events")
+    ctx.assume("one probe parameter (a resonance mass); two real groups: 3-body with three chains of one resonance each, and a 4-body cascade whose chains share a Decay object; density observed on 6 probe events")
     ctx.assume("constants Finally/ExactRestore/RawSave of the specification mirror the repaired code")
 
 
